@@ -211,8 +211,8 @@ type Result struct {
 	// empty string, at a place where the runtime's expression table is in use
 	// under Memoize (finding D11).
 	DivergeMemo bool
-	Final   string // final state store (canonical)
-	Caught  int    // throws for which a listed handler was run
+	Final       string // final state store (canonical)
+	Caught      int    // throws for which a listed handler was run
 }
 
 type handler struct {
@@ -236,28 +236,28 @@ type Interp struct {
 	O      Options
 	Pos    *PosTable
 
-	st       store
-	global   store
-	log      []rtapi.Event
-	errs     []ErrRec
-	errSeq   int
-	fails    []FailRec
-	invert   bool
-	rstack   []*Rule
-	handlers []handler
-	active   map[string]int
-	evals    int
-	advanced map[int]bool
-	backtr   bool
-	reentry  string
-	curText  string // what c.text / c.pos hold in the implementation (QPredStale)
-	curPos   [3]int
-	caught   int
-	seeds    map[string]memoVal
-	growing  map[string]int // SCC id -> number of heads growing, per position key
-	an       *Analysis
-	memo     map[memoKey]memoVal
-	ruleMemo map[string]memoVal
+	st          store
+	global      store
+	log         []rtapi.Event
+	errs        []ErrRec
+	errSeq      int
+	fails       []FailRec
+	invert      bool
+	rstack      []*Rule
+	handlers    []handler
+	active      map[string]int
+	evals       int
+	advanced    map[int]bool
+	backtr      bool
+	reentry     string
+	curText     string // what c.text / c.pos hold in the implementation (QPredStale)
+	curPos      [3]int
+	caught      int
+	seeds       map[string]memoVal
+	growing     map[string]int // SCC id -> number of heads growing, per position key
+	an          *Analysis
+	memo        map[memoKey]memoVal
+	ruleMemo    map[string]memoVal
 	divergeMemo bool
 	// leaderMemo: finished results of left-recursive leaders (memo model)
 	leaderMemo map[string]memoVal
